@@ -200,7 +200,21 @@ def v_round(x, n=None):
     return builtins.round(x) if n is None else builtins.round(x, n)
 
 
-_CASTS = {'float': 'v_float', 'int': 'v_int', 'complex': 'v_complex', 'abs': 'v_abs', 'round': 'v_round'}
+def v_isinstance(x, t):
+    # a symbolic scalar declared integer-valued (class attribute symbolic_int) passes `isinstance(x, int)` guards
+    if isinstance(x, Sym) and getattr(type(x), 'symbolic_int', False):
+        ts = t if isinstance(t, tuple) else (t,)
+        if builtins.int in ts or _np.integer in ts:
+            return True
+    return builtins.isinstance(x, t)
+
+
+def v_id(x):
+    # stand-in objects may carry a deterministic identity so that id()-keyed caches probe the same way in every re-execution
+    return getattr(x, '__verif_id__', None) or builtins.id(x)
+
+
+_CASTS = {'id': 'v_id', 'float': 'v_float', 'int': 'v_int', 'complex': 'v_complex', 'abs': 'v_abs', 'round': 'v_round', 'isinstance': 'v_isinstance'}
 
 
 class Rewriter(ast.NodeTransformer):
@@ -229,6 +243,8 @@ class _Casts:
     v_complex = staticmethod(v_complex)
     v_abs = staticmethod(v_abs)
     v_round = staticmethod(v_round)
+    v_isinstance = staticmethod(v_isinstance)
+    v_id = staticmethod(v_id)
 
 
 class _Loader(importlib.abc.Loader):
